@@ -63,9 +63,9 @@ FRAG = {
         'ent': 'a &amp; b &lt; c',
         'br': 'x<br> y',
         'h': '<h1> T <small>s</small> </h1>',
-        'tstmt': '{O} if x {C}<p>y</p>{O} end {C}',
-        'tattr': '<a href="{O}= u {C}" class="k">t</a>',
-        'tmix': 'a {O} x {C} b <b>{O}y{C}</b>',
+        'tstmt': '{O} if  x {C}<p>y</p>{O}  end {C}',
+        'tattr': '<a href="{O}= u {C}" class="k" title="{O}  t  {C}">t</a>',
+        'tmix': 'a {O}  x  {C} b <b>{O}y{C}</b>',
     },
     'xml': {
         'mix': '<p>The <em>quick</em> <b>brown</b> fox</p>',
@@ -248,7 +248,7 @@ def gen_states(ctx):
     exh = [s for s in exh if s['fr']]
     ctx.coverage['generator_states'] = r['distinct']
     simdir = os.path.dirname(ctx.path('optsim', 'x'))
-    nsim = 150 if ctx.quick() else 2500
+    nsim = 100 if ctx.quick() else 2500
     rs = vlib.tlc(ctx, 'OptGen', 'OptGen_sim.cfg', workers=1, simulate='file=%s/b,num=%d' % (simdir, nsim),
                   depth=8, seed=ctx.seed, timeout=900)
     if rs['errors'] or rs['invariant_violations']:
@@ -266,7 +266,7 @@ def select(ctx, exh, sim):
     """a seeded, stratified part of the exhaustive product: every boolean configuration with every
     single fragment first, then the rest up to the quota (thorough: everything for xml/json/css/svg)"""
     if ctx.quick():
-        quota = dict(html=3200, js=1600, css=1000, json=600, svg=600, xml=300)
+        quota = dict(html=2600, js=1200, css=800, json=500, svg=500, xml=250)
     else:
         quota = dict(html=110000, js=60000, css=10**9, json=10**9, svg=10**9, xml=10**9)
     out = []
@@ -289,7 +289,7 @@ def select(ctx, exh, sim):
 HTML_BITS = ['KeepComments', 'KeepSpecialComments', 'KeepDefaultAttrVals', 'KeepDocumentTags', 'KeepEndTags',
              'KeepQuotes', 'KeepWhitespace']          # bit order of spec/OptDesign.tla (Opt)
 DESIGN_BRANCHES = 18
-DESIGN_FAULTS = ['ws', 'ssi', 'doc', 'defaults', 'quotes', 'endtag']
+DESIGN_FAULTS = ['ws', 'ssi', 'doc', 'defaults', 'quotes', 'endtag', 'crosstalk']
 
 
 def render_sym(toks):
@@ -330,7 +330,7 @@ def design(ctx):
     states = [(int(st['bits']), vlib.tla_seq_to_list(st['syms'])) for st in parse_states(open(dump + '.dump').read())]
     states = [x for x in states if x[1]]
     simdir = os.path.dirname(ctx.path('dessim', 'x'))
-    rs = vlib.tlc(ctx, 'OptDesign', 'OptDesign_sim.cfg', workers=1, simulate='file=%s/b,num=%d' % (simdir, 120 if ctx.quick() else 1500),
+    rs = vlib.tlc(ctx, 'OptDesign', 'OptDesign_sim.cfg', workers=1, simulate='file=%s/b,num=%d' % (simdir, 80 if ctx.quick() else 1500),
                   depth=7, seed=ctx.seed, timeout=900)
     if rs['errors'] or rs['invariant_violations']:
         raise vlib.Infra('OptDesign simulate failed: ' + rs['out'][-1500:])
@@ -355,8 +355,25 @@ def design(ctx):
     return sigma, states, sim, info
 
 
+PREC_FAULTS = ['trunc', 'short', 'digit']
+
+
+def prec_design(ctx):
+    """spec/PrecDesign.tla: the Precision relation accepts half-up rounding built digit by digit for every
+    lexeme x precision in the bound, and (thorough) rejects truncation / one digit less / a changed digit"""
+    r = mc(ctx, 'PrecDesign', 'PrecDesign_quick.cfg' if ctx.quick() else 'PrecDesign_thorough.cfg', workers=2, timeout=1500)
+    info = dict(precision_design_states=r['distinct'])
+    if not ctx.quick():
+        killed = [f for f in PREC_FAULTS
+                  if 'Rounds' in vlib.tlc(ctx, 'PrecDesign', 'PrecDesign_fault_%s.cfg' % f, workers=1, timeout=600)['invariant_violations']]
+        info['precision_faults_killed'] = killed
+        if len(killed) != len(PREC_FAULTS):
+            raise vlib.Infra('PrecisionOK does not reject the seeded rounding faults %s' % sorted(set(PREC_FAULTS) - set(killed)))
+    return info
+
+
 def design_cases(ctx, sigma, states, sim):
-    quota = 2500 if ctx.quick() else 40000
+    quota = 1500 if ctx.quick() else 40000
     pick = vlib.sample(states, quota, ctx.rnd) + sim
     out = []
     for bits, syms in pick:
@@ -383,7 +400,7 @@ def suite_cases(ctx):
             out.append(dict(mode='lib', lang='js', o=dict(default_opts(), Version=v, KeepVarNames=kv), flags=[],
                             exp=dict(suite=True), **{'in': s}))
     if ctx.quick():
-        out = vlib.sample(out, 600, ctx.rnd)
+        out = vlib.sample(out, 400, ctx.rnd)
     return out
 
 
@@ -573,13 +590,15 @@ def run(ctx):
     cli = vlib.build_cli(ctx)
     vlib.log('built', round(time.time() - ctx.t0, 1))
     vlib._speccopy(ctx)
-    with ThreadPoolExecutor(max_workers=4) as ex:      # four different modules: no clash of TLC metadirs
+    with ThreadPoolExecutor(max_workers=5) as ex:      # five different modules: no clash of TLC metadirs
         f1 = ex.submit(lexeme_pool, ctx)
         f2 = ex.submit(gen_states, ctx)
         f3 = ex.submit(cli_cases, ctx)
         f4 = ex.submit(design, ctx)
+        f5 = ex.submit(prec_design, ctx)
         pools, (exh, sim), clic = f1.result(), f2.result(), f3.result()
         sigma, dstates, dsim, dinfo = f4.result()
+        dinfo.update(f5.result())
     for r in _MC:
         ctx.add_mc(r)
     ctx.coverage.update(dinfo)
